@@ -11,7 +11,7 @@ LEVEL_TEXT = ("Held on the executions produced: for every input the strict run r
               "else) exactly when the non-strict run recorded an error, with the message of the first recorded error; "
               "every recorded error had a known code whose template formats with its variables and a position inside the "
               "input; generated conforming documents recorded none. Exploration with an EOF-in-every-state family.")
-BUDGET_S = {"quick": 40, "thorough": 600}
+BUDGET_S = {"quick": 40, "thorough": 900}
 RULE = ("cases = (input, document|fragment+container) from soup, misnesting, an EOF family (every prefix of ~300 "
         "tag/doctype/comment/reference spellings) and conforming documents (every tag explicit; the same document in other conforming spellings: name case, quoting styles, '/>' on void and childless foreign elements, reference forms, doctype forms; and with optional tags omitted wherever R-omit allows); each is parsed twice (strict, non-strict). "
         "distinct_nontrivial = distinct cases whose non-strict run recorded at least one error, plus conforming documents.")
@@ -177,7 +177,7 @@ def shard(ctx):
             ctx.count("eof_family_cases")
             if cut % 3 == 0:
                 judge(ctx, {"input": pre, "frag": True, "container": ("div", "title", "script", "svg", "table", "select")[cut % 6]})
-    for q in gen.token_sequences(ctx, 3, 4, 0.4):
+    for q in gen.token_sequences(ctx, 3, 4, 0.6):
         judge(ctx, {"input": q, "frag": False})
         ctx.count("sequence_cases")
     n, idx = 0, ctx.i
